@@ -138,7 +138,7 @@ func (u *Unit) execInstr(fn *ssa.Function, st *State, ins ssa.Instruction) {
 		r := u.newRef(st, "mkslice")
 		hn, hs := u.elemHeap(et)
 		h := u.heap(st, hn, hs)
-		u.setHeap(st, hn, hs, sx("store", h, r, fmt.Sprintf("((as const %s) %s)", arrSort(SInt, u.ty.sortOf(et)), u.ty.zero(et))))
+		u.setHeap(st, hn, hs, sx("store", h, r, u.ty.constArray(SInt, u.ty.sortOf(et), u.ty.zero(et))))
 		ln, cp := u.val(st, x.Len), u.val(st, x.Cap)
 		u.safety(st, "makeslice", and(sx(">=", ln, "0"), sx(">=", cp, ln)), x.Pos())
 		u.setReg(st, x, sx("mk_slc", r, "0", ln, cp))
